@@ -19,9 +19,10 @@ from multiprocessing import Pool
 
 from harness import common
 from harness.common import Model
+from harness.props import C12_path as PS
 
 PID = "C12"
-TRANSLATORS = ["T-abienc"]
+TRANSLATORS = ["T-abienc", "T-dynparams"]
 KNOWN = []
 
 PARTIAL = None
@@ -866,6 +867,43 @@ def check_case(rep, case, obs, mobs, model, r, stats):
     return fails
 
 
+def check_sessions(rep, sessions, sobs, m):
+    nbad = 0
+    ok_idx = []
+    for i, (x, o) in enumerate(zip(sessions, sobs)):
+        kinds, nontrivial = PS.classify(x, o)
+        for k in kinds:
+            rep.count("session", k)
+        rep.case(PS.public(x), nontrivial=nontrivial)
+        bad = PS.check_spec(x, o)
+        for kind, what, sig in bad:
+            nbad += 1
+            if nbad <= 6:
+                rep.fail(kind, what, case=PS.public(x), sig=sig)
+        if not bad:
+            ok_idx.append(i)
+    if m is None:
+        return nbad
+    # the model's symbol indices (first pass, fix events left out), then the full event list
+    first = m.parallel_batch([PS.model_call(sessions[i], sobs[i]) for i in ok_idx]) if ok_idx else []
+    second_idx, calls = [], []
+    parsed = {}
+    for i, res in zip(ok_idx, first):
+        mo = PS.parse_model(res)
+        parsed[i] = mo
+        if "error" not in mo and any(ev[0] == "fix" for ev in sobs[i]["events"]):
+            second_idx.append(i)
+            calls.append(PS.model_call(sessions[i], sobs[i], [d[2] for d in mo["dyn"]]))
+    for i, res in zip(second_idx, m.parallel_batch(calls) if calls else []):
+        parsed[i] = PS.parse_model(res)
+    for i in ok_idx:
+        for what in PS.check_model(sessions[i], sobs[i], parsed[i]):
+            nbad += 1
+            if nbad <= 6:
+                rep.fail("broken-tie", what, case=PS.public(sessions[i]))
+    return nbad
+
+
 def _words_of(items, raw_names):
     """per 32-byte word of the calldata: ('size', raw name) | ('word', raw name) | ('con', z) | ('data',)"""
     out, names = [], iter(raw_names)
@@ -1045,6 +1083,21 @@ def run(rep, tier):
                 if nbad <= 12:
                     rep.fail("broken-tie", f"calldataload: model branches {str(got)[:120]} implementation {str(want)[:120]}", case=pub)
         rep.coverage["calldataload_model_runs"] = len(lcalls)
+    # several calldata in one path (harness/props/C12_path.py): specification and path model vs the real
+    # Path / Concretization / calldataload / createCalldata
+    t1 = time.time()
+    nsess = 60 if tier == "quick" else 2500
+    sessions = [dict(x) for x in PS.CORPUS]
+    while len(sessions) < nsess:
+        sessions.append(PS.gen_session(r, tier))
+    if tier == "quick":
+        sobs = [PS.impl_session(x) for x in sessions]
+    else:
+        with Pool(min(16, os.cpu_count() or 4)) as pool:
+            sobs = pool.map(PS.impl_session, sessions, chunksize=8)
+    nbad += check_sessions(rep, sessions, sobs, m)
+    rep.coverage["sessions"] = len(sessions)
+    rep.coverage["sessions_s"] = round(time.time() - t1, 1)
     # extracted Coq decoder on the instantiated calldata
     if m and stats["decode_calls"]:
         calls = stats["decode_calls"] if tier != "quick" else stats["decode_calls"][:400]
